@@ -26,6 +26,7 @@ type corrParams struct {
 	cancel bool
 	skip   []int // per-node skips
 	tail   bool  // streams: the handler returns (or fails) right after its last reply instead of waiting for the script
+	resets int   // the stream of the last node is reset this many times during the call (events of the script)
 }
 
 func (p corrParams) name() string {
@@ -39,6 +40,9 @@ func (p corrParams) name() string {
 	}
 	if p.tail {
 		f += "/ends-with-last-reply"
+	}
+	if p.resets > 0 {
+		f += fmt.Sprintf("/resets-of-last-node=%d", p.resets)
 	}
 	return fmt.Sprintf("corr/%s/n=%d/k=%d/%s/levels=%v/doneAt=%d/cancel=%v/skip=%v", p.kind, p.n, p.k, f, p.levels, p.doneAt, p.cancel, p.skip)
 }
@@ -198,6 +202,11 @@ func corrHistory(p corrParams) func() {
 		if p.cancel {
 			events = append(events, ev{0, 0})
 		}
+		for i := 0; i < p.resets; i++ {
+			events = append(events, ev{p.n, -2}) // the connection to the last node breaks (and is re-created)
+		}
+		failed := map[int]bool{} // nodes whose connection broke during the call: they cannot answer it any more
+		repliedOnce := map[int]bool{}
 		hist := ""
 		step := 0
 		for {
@@ -220,6 +229,25 @@ func corrHistory(p corrParams) func() {
 					mDone, mErr = true, context.Canceled
 				}
 				continue
+			case e.idx == -2:
+				hist += fmt.Sprintf("%dx", e.node)
+				w.FW.Reset(world.Addr(e.node))
+				if !failed[e.node] && (stream || !repliedOnce[e.node]) {
+					// (a node that has answered a non-stream call is done with it: its router is gone)
+					failed[e.node] = true
+					// whatever the node would still have sent for this call is lost with the stream
+					var rest []ev
+					for _, x := range events {
+						if x.node != e.node || x.idx == -2 {
+							rest = append(rest, x)
+						}
+					}
+					events = rest
+					if !mDone {
+						errs++
+						answered++
+					}
+				}
 			case e.idx == -1:
 				hist += fmt.Sprintf("%d!", e.node)
 				w.Open(fmt.Sprintf("n%d!", e.node))
@@ -229,6 +257,7 @@ func corrHistory(p corrParams) func() {
 				}
 			default:
 				hist += fmt.Sprintf("%d", e.node)
+				repliedOnce[e.node] = true
 				w.Open(fmt.Sprintf("n%d#%d", e.node, e.idx))
 				streamEnds := false
 				if stream {
@@ -341,6 +370,18 @@ func corrInstances(tier string) []Instance {
 						}
 					}
 				}
+			}
+		}
+	}
+	// connection faults during the call: the last node's stream is reset twice (re-created each time)
+	for _, kind := range []string{"Correctable", "CorrectableStream"} {
+		for _, k := range []int{1, 2} {
+			if k == 2 && kind == "Correctable" {
+				continue
+			}
+			for _, d := range []int{0, 2} {
+				p := corrParams{kind: kind, n: 2, k: k, fails: []bool{false, false}, levels: []int{1, 2, 3}, doneAt: d, resets: 2}
+				out = append(out, Instance{Name: p.name(), Bound: 1, Root: corrHistory(p)})
 			}
 		}
 	}
